@@ -411,6 +411,131 @@ Fixpoint run_pop (s : session) (o : pop) : session :=
   end.
 Definition run_pops (s : session) (h : list pop) : session := fold_left run_pop h s.
 
+(* ---- every producer of a synchronisation message ---------------------------------------------
+   The call sites of writeDeviceInfo in c2 and, for each, the consumer (a readDeviceInfo call site)
+   that receives the bytes.  A kind is either fixed at the call site (KFixed k) or ANNOUNCED: the
+   producer writes one kind byte and then the body of that kind, the consumer reads the byte and
+   then reads that kind (SvResync, the notice a Script sends). *)
+Inductive kexpr := KFixed (k : Z) | KAnnounced.
+Definition kexpr_eqb (a b : kexpr) : bool :=
+  match a, b with KFixed x, KFixed y => x =? y | KAnnounced, KAnnounced => true | _, _ => false end.
+(* the functions (and, inside the two big switches, the case) that contain a call *)
+Inductive site :=
+| W_Connect                (* c2.go connect: SvHello of a new client *)
+| W_Register               (* vars.go receiveSingle case SvRegister: the re-registration SvHello *)
+| W_LoadContext            (* c2.go LoadContext: the RvResult of a finished migration *)
+| W_Script                 (* mux.go muxHandleScript *)
+| W_MvTime | W_MvProxy | W_MvRefresh | W_MvProfile      (* mux.go muxHandleInternal, by case *)
+| W_Spawn | W_Migrate      (* session.go Session.Spawn / Session.Migrate: over the local pipe *)
+| R_Load | R_LoadContext   (* c2.go: the spawned / migrated process reading the pipe *)
+| R_Listener               (* listener.go: SvHello of an unknown device (talk and talkSub) *)
+| R_Resync                 (* vars.go receiveSingle case SvResync *)
+| R_MvProxy | R_MvMigrate | R_MvRefresh | R_MvTime      (* session_no_implant.go handleInfoResult, by case *)
+| S_Other.                 (* a call site this table does not know *)
+Definition site_code (x : site) : Z :=
+  match x with
+  | W_Connect => 1 | W_Register => 2 | W_LoadContext => 3 | W_Script => 4 | W_MvTime => 5 | W_MvProxy => 6
+  | W_MvRefresh => 7 | W_MvProfile => 8 | W_Spawn => 9 | W_Migrate => 10 | R_Load => 11 | R_LoadContext => 12
+  | R_Listener => 13 | R_Resync => 14 | R_MvProxy => 15 | R_MvMigrate => 16 | R_MvRefresh => 17 | R_MvTime => 18
+  | S_Other => 0
+  end.
+Record producer := mkProducer { pr_site : site; pr_kind : kexpr; pr_consumer : option site; pr_ckind : kexpr }.
+(* every writeDeviceInfo call, in source order per file, with the reader that consumes its bytes *)
+Definition producers : list producer :=
+  [ mkProducer W_LoadContext (KFixed infoSyncMigrate) (Some R_MvMigrate) (KFixed infoSyncMigrate);
+    mkProducer W_Connect (KFixed infoHello) (Some R_Listener) (KFixed infoHello);
+    mkProducer W_Script (KFixed infoSync) None (KFixed infoSync);        (* appended to the Script's own result: not absorbed *)
+    mkProducer W_Script KAnnounced (Some R_Resync) KAnnounced;           (* SvResync: kind byte + body *)
+    mkProducer W_MvTime (KFixed infoSync) (Some R_MvTime) (KFixed infoSync);
+    mkProducer W_MvProxy (KFixed infoProxy) (Some R_MvProxy) (KFixed infoProxy);
+    mkProducer W_MvProxy (KFixed infoProxy) (Some R_MvProxy) (KFixed infoProxy);
+    mkProducer W_MvProxy (KFixed infoProxy) (Some R_MvProxy) (KFixed infoProxy);
+    mkProducer W_MvRefresh (KFixed infoRefresh) (Some R_MvRefresh) (KFixed infoRefresh);
+    mkProducer W_MvProfile (KFixed infoSync) (Some R_MvTime) (KFixed infoSync);
+    mkProducer W_Spawn (KFixed infoSync) (Some R_Load) (KFixed infoSync);
+    mkProducer W_Migrate (KFixed infoMigrate) (Some R_LoadContext) (KFixed infoMigrate);
+    mkProducer W_Register (KFixed infoHello) (Some R_Listener) (KFixed infoHello) ].
+(* every readDeviceInfo call *)
+Definition consumers : list (site * kexpr) :=
+  [ (R_LoadContext, KFixed infoMigrate); (R_Load, KFixed infoSync);
+    (R_Listener, KFixed infoHello); (R_Listener, KFixed infoHello);
+    (R_MvProxy, KFixed infoProxy); (R_MvMigrate, KFixed infoSyncMigrate); (R_MvRefresh, KFixed infoRefresh);
+    (R_MvTime, KFixed infoSync); (R_Resync, KAnnounced) ].
+(* a producer is paired when its consumer exists in the reader table with the kind the producer writes *)
+Definition site_eqb (a b : site) : bool := site_code a =? site_code b.
+Definition paired (p : producer) : bool :=
+  match pr_consumer p with
+  | None => true
+  | Some c => kexpr_eqb (pr_kind p) (pr_ckind p) &&
+              existsb (fun x => site_eqb (fst x) c && kexpr_eqb (snd x) (pr_ckind p)) consumers
+  end.
+
+(* SvResync: kind byte, then the body of that kind (c2/mux.go muxHandleScript; c2/vars.go receiveSingle) *)
+Definition write_resync (z : Z) (c : session) : list Z := enc_u8 z ++ write_info z c.
+Definition read_resync {S} (o : ops S) (r : session) : rdr S (session * list pdata) :=
+  rdo t <- r_u8 o; read_info o t r.
+
+(* a Script (task.Script run by muxHandleScript): the entries that matter for synchronisation *)
+Inductive entry :=
+| ETime (o : order)        (* a task.Duration / task.KillDate / task.WorkHours entry (OTask* orders) *)
+| ERefresh (m : machine)   (* MvRefresh: m = the device details the client's refresh found *)
+| EProfile                 (* MvProfile with a profile that parses: the settings are untouched *)
+| EBad                     (* an MvTime entry whose body is cut after the type byte: fails *)
+| EPlain.                  (* a task that succeeds and synchronises nothing (MvPwd) *)
+
+(* one entry on the client: None = the entry failed; otherwise the client and the kind it asks to
+   resynchronise (0 = none) *)
+Definition run_entry (c : session) (e : entry) : option (session * Z) :=
+  match e with
+  | ETime o =>
+    match server_set c o with
+    | Ok (_, pkt) => match client_time c pkt with Ok (c', _) => Some (c', infoSync) | _ => None end
+    | _ => None
+    end
+  | ERefresh m => Some (set_dev c m, infoRefresh)
+  | EProfile => Some (c, infoSync)
+  | EBad => None
+  | EPlain => Some (c, 0)
+  end.
+(* the loop of muxHandleScript: z is the kind of the LAST successful synchronising entry; a failing
+   entry ends the Script when stop-on-error is set and is skipped otherwise *)
+Fixpoint run_script (stop : bool) (c : session) (z : Z) (es : list entry) : session * Z :=
+  match es with
+  | [] => (c, z)
+  | e :: es' =>
+    match run_entry c e with
+    | Some (c', k) => run_script stop c' (if 0 <? k then k else z) es'
+    | None => if stop then (c, z) else run_script stop c z es'
+    end
+  end.
+(* Script on the client, SvResync (if any) absorbed by the server-side session: the notice's body, the
+   client and the server afterwards *)
+Definition script_exchange (stop : bool) (srv cli : session) (es : list entry) : res (option (list Z) * session * session) :=
+  let '(cli', z) := run_script stop cli 0 es in
+  if 0 <? z then
+    let body := write_resync z cli' in
+    match read_resync flat_ops srv body with
+    | Ok (r, _) => Ok (Some body, cli', fst r)
+    | Err _ => Ok (Some body, cli', srv)       (* the read error is only logged; fields read before it are NOT modelled *)
+    | Panic => Panic
+    end
+  else Ok (None, cli', srv).
+(* a single task sent directly (not in a Script): the result body is the echo of the handler, absorbed
+   by handleInfoResult with the kind that belongs to the task *)
+Definition direct_exchange (srv cli : session) (e : entry) : res (option (list Z) * session * session) :=
+  match run_entry cli e with
+  | Some (cli', k) =>
+    if 0 <? k then
+      let body := write_info k cli' in
+      match read_info flat_ops k srv body with
+      | Ok (r, _) => Ok (Some body, cli', fst r)
+      | Err _ => Ok (Some body, cli', srv)
+      | Panic => Panic
+      end
+    else Ok (None, cli', srv)
+  | None => Err 1
+  end.
+
 (* ---- correspondence cases ----------------------------------------------------------------
    Long byte strings are described by a generator evaluated here (the harness builds the same
    bytes): byte i of gen_bytes n a b is (a + i*b) mod 256. *)
@@ -472,7 +597,13 @@ Inductive case :=
 | CReadStream (k : Z) (r0 : session) (input : src) (out : robs)
 | CTime (srv cli : session) (o : order) (out : res (list Z * session * session))
   (* server setter -> MvTime payload; client handler; echo absorbed: payload, client, server *)
-| CProxyHist (s0 : session) (h : list pop) (k : Z) (r0 : session) (sp : split) (out : bobs) (rd : robs).
+| CProxyHist (s0 : session) (h : list pop) (k : Z) (r0 : session) (sp : split) (out : bobs) (rd : robs)
+| CScript (stop : bool) (srv cli : session) (es : list entry) (out : res (option (list Z) * session * session))
+  (* real task.Script through the client's muxHandleScript, SvResync through receiveSingle, result through handle *)
+| CDirect (srv cli : session) (e : entry) (out : res (option (list Z) * session * session))
+  (* one real task through muxHandleInternal and handleInfoResult *)
+| CSites (writes reads : list (site * kexpr)).
+  (* the call sites of writeDeviceInfo / readDeviceInfo found in the c2 sources of this run *)
   (* real proxy operations h on the client s0, then writeDeviceInfo(k): bytes, and what r0 reads back
      through a stream split sp *)
 
@@ -501,6 +632,11 @@ Definition tobs_eqb (a b : res (list Z * session * session)) : bool :=
                       settings_eqb (snd x) (snd y))
           (match a with Err _ => Err 1 | x => x end) b.
 
+Definition sobs_eqb (a b : res (option (list Z) * session * session)) : bool :=
+  res_eqb (fun x y => option_eqb zlist_eqb (fst (fst x)) (fst (fst y)) && session_eqb (snd (fst x)) (snd (fst y)) &&
+                      session_eqb (snd x) (snd y))
+          (match a with Err _ => Err 1 | x => x end) b.
+Definition sk_eqb (a b : site * kexpr) : bool := site_eqb (fst a) (fst b) && kexpr_eqb (snd a) (snd b).
 Definition check (c : case) : bool :=
   match c with
   | CWrite k s out => bobs_ok out (write_info k s)
@@ -511,6 +647,10 @@ Definition check (c : case) : bool :=
   | CReadFlat k r0 input out => robs_eqb (robs_of len (read_info flat_ops k r0 input)) out
   | CReadStream k r0 input out => robs_eqb (robs_of src_len (read_info stream_ops k r0 input)) out
   | CTime srv cli o out => tobs_eqb (exchange srv cli o) out
+  | CScript stop srv cli es out => sobs_eqb (script_exchange stop srv cli es) out
+  | CDirect srv cli e out => sobs_eqb (direct_exchange srv cli e) out
+  | CSites ws rs =>
+    list_eqb sk_eqb ws (map (fun p => (pr_site p, pr_kind p)) producers) && list_eqb sk_eqb rs consumers
   | CProxyHist s0 h k r0 sp out rd =>
     let s' := run_pops s0 h in
     bobs_ok out (write_info k s') &&
